@@ -140,6 +140,12 @@ func (w *SimWriter) Flush() {
 	w.add(c)
 }
 
+// FlushError is what http.ResponseController prefers; net/http's response has it.
+func (w *SimWriter) FlushError() error {
+	w.Flush()
+	return nil
+}
+
 // applyWFault is the fault plan: what the k-th underlying Write of size bytes returns.
 func applyWFault(faults []WFault, k, size int) (n int, err error, fired []string) {
 	n = size
